@@ -217,6 +217,37 @@ def run(tier, seed, which="C02"):
             V.traces += len(runs)
         if si == 0:
             V.sample(dict(scenario=sc["id"], n=len(sc["seqs"]), L=len(sc["seqs"][0]), configurations=[dict(build=j[2]["build"], threads=j[2]["threads"], env=j[2]["env"]) for j, _, _, _ in runs[:4]]))
+    # diagnostic: ThreadSanitizer with Archer (OpenMP-aware happens-before) on every scenario.  A report names a data race,
+    # i.e. a reason why SOME schedule may give another result; it is printed and counted, but it is not a verdict (a race
+    # between equal values does not change the alignment, and the property is about the alignment).
+    archer = "/usr/lib/llvm-14/lib/libarcher.so"
+    if os.path.exists(archer):
+        try:
+            kv.build("tsan")
+
+            def tsan(si):
+                fa = os.path.join(wd, S[si]["id"], "in.fa")
+                locs = set()
+                for th in (4, 16):
+                    rc, so, se = kv.run_cli(["-i", fa, "-o", os.path.join(wd, S[si]["id"], "tsan.out"), "-n", str(th)], variant="tsan", timeout=900,
+                                            env={"OMP_TOOL_LIBRARIES": archer, "TSAN_OPTIONS": "ignore_noninstrumented_modules=1 exitcode=66"})
+                    txt = se.decode("utf-8", "replace")
+                    blocks = txt.split("WARNING: ThreadSanitizer: data race")[1:]
+                    for b in blocks:
+                        m = [x.strip() for x in b.splitlines() if x.strip().startswith("#0 ")]
+                        if m:
+                            locs.add(" / ".join(sorted(set(y.split(" (kalign")[0].replace("#0 ", "") for y in m[:2]))))
+                return si, sorted(locs)
+            nrace = 0
+            for si, locs in kv.pmap(tsan, range(len(S)), workers=4):
+                for loc in locs:
+                    nrace += 1
+                    V.divergence("scenario %s: ThreadSanitizer (Archer) reports a data race: %s" % (S[si]["id"], loc[:200]))
+            V.extra["tsan_archer_scenarios"] = len(S)
+            V.extra["tsan_archer_race_locations"] = nrace
+        except kv.Broken as e:
+            V.extra["tsan_archer_scenarios"] = 0
+            print("NOTE: property=C02 the ThreadSanitizer diagnostic could not be built: %s" % str(e)[:200])
     V.extra["failures_not_repeated_when_run_alone"] = list(_flaky)
     for x in _flaky:
         print("NOTE: property=C02 %s" % x)
